@@ -359,6 +359,24 @@ fn sc_tdefl(rep: &mut Report, rng: &mut Rng, instr: Instr, max: usize) {
     unsafe {
         let c = tdefl_allocate();
         let callback_mode = rng.chance(1, 3);
+        // sometimes the object already went through another life (other output mode, other
+        // flags, stream abandoned anywhere): tdefl_init must make it behave like a new one
+        let mut prior = Collect { out: Vec::new(), refuse_after: usize::MAX, calls: 0 };
+        if rng.chance(1, 2) {
+            let prior_cb = rng.bool();
+            let pf = create_comp_flags_from_zip_params(rng.below(11) as i32, if rng.bool() { 15 } else { -15 }, rng.below(5) as i32);
+            tdefl_init(c.as_mut(), if prior_cb { Some(put_buf) } else { None }, &mut prior as *mut Collect as *mut c_void, pf as c_int);
+            let junk = rng.bytes(rng.clone().below(5000));
+            let mut isz = junk.len();
+            if prior_cb {
+                tdefl_compress(c.as_mut(), junk.as_ptr() as *const c_void, Some(&mut isz), std::ptr::null_mut(), None, if rng.bool() { tdefl_flush::TDEFL_NO_FLUSH } else { tdefl_flush::TDEFL_FINISH });
+            } else {
+                let mut o = vec![0u8; 1 + rng.below(300)];
+                let mut osz = o.len();
+                tdefl_compress(c.as_mut(), junk.as_ptr() as *const c_void, Some(&mut isz), o.as_mut_ptr() as *mut c_void, Some(&mut osz), if rng.bool() { tdefl_flush::TDEFL_NO_FLUSH } else { tdefl_flush::TDEFL_FINISH });
+            }
+            rep.count("tdefl_reinit_after_prior_life");
+        }
         let mut coll = Collect { out: Vec::new(), refuse_after: if rng.chance(1, 5) { rng.below(3) } else { usize::MAX }, calls: 0 };
         let st = tdefl_init(c.as_mut(), if callback_mode { Some(put_buf) } else { None }, &mut coll as *mut Collect as *mut c_void, flags as c_int);
         if (st as i32) != 0 {
@@ -504,6 +522,17 @@ fn sc_tinfl(rep: &mut Report, rng: &mut Rng, instr: Instr, max: usize, skip_heap
         // tinfl_decompress with a flat or a ring buffer, against decompress()
         let r = tinfl_decompressor_alloc();
         tinfl_init(r);
+        if rng.chance(1, 2) {
+            // a prior, abandoned decode on the same object, then tinfl_init again
+            let junk = rng.bytes(1 + rng.clone().below(200));
+            let mut tmp = vec![0u8; 32768];
+            let mut isz = junk.len();
+            let mut osz = tmp.len();
+            let tp = tmp.as_mut_ptr();
+            tinfl_decompress(r, junk.as_ptr(), &mut isz, tp, tp, &mut osz, rng.below(2) as u32 | 2);
+            tinfl_init(r);
+            rep.count("tinfl_reinit_after_prior_life");
+        }
         let mut twin = DecompressorOxide::new();
         let ring = rng.bool();
         let size = if ring { 32768 } else { g.plain.len() + 1 + rng.below(3) };
